@@ -173,7 +173,7 @@ func (d refDT) instant() (days int64, nsec int64) {
 
 var (
 	reDate  = regexp.MustCompile(`^(\d{4})-(\d{2})-(\d{2})$`)
-	reClock = regexp.MustCompile(`^(\d{2}):(\d{2}):(\d{2})(\.(\d+))?$`)
+	reClock = regexp.MustCompile(`^(\d{2}):(\d{2}):(\d{2})([.,](\d+))?$`) // ISO 8601 allows a comma as the decimal sign
 	reZone  = regexp.MustCompile(`(Z|[+-]\d{2}(:\d{2})?)$`)
 )
 
